@@ -498,7 +498,13 @@ func caseFocus(c *hlib.Ctx) {
 		p = center.Add(unit(c).Scale(r * c.Rng.Float64())) // inside
 		c.Stat("focus.inside", 1)
 	} else {
-		p = center.Add(unit(c).Scale(r * (1 + c.Rng.Float64()*4)))
+		far := 1 + c.Rng.Float64()*4
+		if c.Rng.Intn(3) == 0 {
+			// a small / distant focus sphere ("a star"): angular radius down to 1e-7 rad
+			far = math.Exp(c.Rng.Float64() * math.Log(1e7))
+			c.Stat("focus.far", 1)
+		}
+		p = center.Add(unit(c).Scale(r * far))
 		c.Stat("focus.outside", 1)
 	}
 	if p == center {
@@ -508,6 +514,9 @@ func caseFocus(c *hlib.Ctx) {
 		c.Stat("focus.filtered-out", 1)
 	}
 	minCos, dir := render3d.VerifFocusInfo(fp, p)
+	if 1-minCos < render3d.VerifCosineEpsilon && minCos < 1 {
+		c.Stat("focus.cone-narrower-than-cosineEpsilon", 1)
+	}
 	c.Emit(fmt.Sprintf("c19 finfo %s %s %s", hv(center), hx(r), hv(p)), hx(minCos)+" "+ov(dir))
 
 	u, u2 := uniform(c), uniform(c)
@@ -535,7 +544,7 @@ func caseFocus(c *hlib.Ctx) {
 		c.Emit(fmt.Sprintf("c19 audens %s %s %s", hx(minCos), hv(dir), hv(sv)), hx(render3d.VerifDensityAroundUniform(minCos, dir, sv)))
 		c.Emit(fmt.Sprintf("c19 fdens %s %s %s %s %s %s", hv(center), hx(r), hv(p), b01(focus), hv(n), hv(sv)), hx(fp.FocusDensity(mat, p, n, sv, V{})))
 	}
-	if finite(fs) && fp.FocusDensity(mat, p, n, fs, V{}) == 0 && u != 0 && u < 1-1e-9 { // (u -> 1 is the rim of the cap: rounding decides the side)
+	if finite(fs) && fp.FocusDensity(mat, p, n, fs, V{}) == 0 && u != 0 && u < 1-1e-9 && (1-u)*(1-minCos) > 1e-12 { // (u -> 1 is the rim of the cap: rounding decides the side)
 		c.PropFail("prop:c19/focus-zero-density-at-own-sample", fmt.Sprintf("center=%v radius=%v point=%v focus=%v normal=%v draws=(%v,%v) sample=%v", center, r, p, focus, n, u, u2, fs))
 	}
 
